@@ -14,8 +14,40 @@ import (
 // Locker mirrors sync.Locker.
 type Locker = sync.Locker
 
-// Pool is not scheduled.
-type Pool = sync.Pool
+// Pool stands in for sync.Pool (the rewriter substitutes it wherever the code under test says sync.Pool).
+// sync.Pool may hand out ANY item Put earlier, or none, depending on which processor the caller runs on
+// and on garbage collection — behaviour no scheduler controls. This Pool always hands out the item Put most
+// recently: one of sync.Pool's allowed behaviours, the same on every run, and the one under which an item
+// that is still in use somewhere when it is Put back is noticed soonest.
+type Pool struct {
+	New   func() interface{}
+	mu    sync.Mutex
+	items []interface{}
+}
+
+func (p *Pool) Get() interface{} {
+	p.mu.Lock()
+	if n := len(p.items); n > 0 {
+		x := p.items[n-1]
+		p.items = p.items[:n-1]
+		p.mu.Unlock()
+		return x
+	}
+	p.mu.Unlock()
+	if p.New != nil {
+		return p.New()
+	}
+	return nil
+}
+
+func (p *Pool) Put(x interface{}) {
+	if x == nil {
+		return
+	}
+	p.mu.Lock()
+	p.items = append(p.items, x)
+	p.mu.Unlock()
+}
 
 // Mutex mirrors sync.Mutex.
 type Mutex struct {
